@@ -502,7 +502,7 @@ class AggregateBase(UnitsManaged, Saveable, OpenSystem):
             #just consult the table.
 
             if not self.FC.lookup(shft):
-                fc = self.ops.shift_operator(shft)[:20,:20]
+                fc = self.ops.shift_operator(shft)
                 
                 # correction for the second state
                 if False:
